@@ -51,8 +51,8 @@ const (
 // class of a type for the decision table
 type verifClass struct {
 	ptr, basic, strct, list, fixed, mp, enum bool
-	kind                                   types.BasicKind
-	ptrToBasic                             bool
+	kind                                     types.BasicKind
+	ptrToBasic                               bool
 }
 
 func verifK1Type(tag string, side string) (types.Type, verifClass) {
@@ -288,4 +288,3 @@ func VerifHarness_C03_Dispatch() {
 		verifAssert("structural-rule-by-shape", verifImplies(verifNot(early), want))
 	}
 }
-
